@@ -544,7 +544,8 @@ def jobs_for(pid, tier):
         "C13": prof(both("disjoint", ["disjoint"], consts={"Vers": [0], "MaxKs": 3}, bigconsts={"MaxKs": 4}), "asan", "miri") + tmap + tbig,
         "C16": both("bulk", ["bulk"], bigconsts={"MaxExtra": 1}) + both("setbulk", ["bulk"], mode="set", consts={"MaxExtra": 1}, bigconsts={"Vers": [0]}),
         "C18": both("unchecked", ["unchecked"], consts={"MaxKs": 3}, bigconsts={"Vers": [0], "MaxKs": 4}) + tmap + tbig,
-        "C19": both("fmt", ["fmt", "cursor"]) + setcore,
+        "C19": both("fmt", ["fmt", "cursor"]) + setcore
+               + ([J("fmt-n3", ["fmt"], consts={"Caps": [3], "Vers": [0], "Vals": [0]}), J("setfmt-n3", ["fmt"], mode="set", consts={"Caps": [3], "Vers": [0]})] if q else []),
         "C08": pairs("alg", ["algebra"], "set", qcaps if q else tcaps),
         "C14": pairs("eqset", ["eq"], "set", qcaps if q else tcaps) + pairs("eqmap", ["eq"], "map", qcaps[:2] if q else tcaps[:9]),
         "C15": shaped(both("clone", ["clone"])) + both("setclone", ["clone"], mode="set"),
@@ -600,6 +601,10 @@ GATES = {  # failure attributions that make a check for <pid> report a violation
     "C03": {"C03", "CRASH"},
     # "within those preconditions both uphold every other guarantee (ownership, key uniqueness, bounds, stored-key identity)"
     "C18": {"C18", "C02", "C05", "C12", "C03", "CRASH"},
+    # "for repeated keys the last value wins and the first key object is kept"
+    "C16": {"C16", "C12", "CRASH"},
+    # "formatting never changes the container": an element destroyed or touched while rendering
+    "C19": {"C19", "C02", "CRASH"},
 }
 
 
